@@ -690,6 +690,12 @@ def deep_clone(value: Any) -> Any:
             # Regular list, deep copy
             return copy.deepcopy(value)
 
+    if hasattr(value, "_limits") and callable(getattr(value, "copy", None)):
+        # A Limits collection knows how to copy itself (fresh counters, same project).
+        # copy.deepcopy would follow its project reference and clone the entire project
+        # - every task, resource and scoreboard - for each inheriting task and scenario.
+        return value.copy()
+
     return copy.deepcopy(value)
 
 
